@@ -149,6 +149,40 @@ example : ∫ τ in Set.Ioi (0 : ℝ), Real.exp (gammaLogPdf 2 3 (Real.log (Real
         (Real.log (Real.Gamma (2 + (((3 - 1 : ℕ) : ℤ) : ℝ) / 2))) [4, 9] 3) :=
   gamma_integrated 2 3 (by norm_num) (by norm_num) [4, 9] (by norm_num) 3 _ _ _ rfl
 
+/-- **invgamma_integrated** — `∫_0^∞ InvGamma(θ; α, β) · ConstantCoalescent(T | θ) dθ` is the closed form
+`ConstantCoalescentIntegrated.log_prob` returns (substitution `u = 1/θ`), for any height vector whose statistic
+`Σ C(k,2)·Δt` is non-negative, `α, β > 0`. -/
+theorem invgamma_integrated (α β : ℝ) (hα : 0 < α) (hβ : 0 < β) (heights : List ℝ)
+    (hstat : 0 ≤ constantStat heights) (lgA lgAm : ℝ)
+    (hAm : lgAm = Real.log (Real.Gamma (α + (((taxaCount heights - 1 : ℕ) : ℤ) : ℝ)))) :
+    ∫ θ in Set.Ioi (0 : ℝ), Real.exp (invGammaLogPdf α β lgA θ) * Real.exp (constantLogProb θ heights)
+      = Real.exp (constantIntegratedLogProb α β lgA lgAm (constantStat heights) (taxaCount heights - 1)) := by
+  set m : ℝ := (((taxaCount heights - 1 : ℕ) : ℤ) : ℝ) with hm_def
+  have hm0 : (0 : ℝ) ≤ m := by rw [hm_def]; exact_mod_cast Nat.zero_le _
+  have hs : 0 < α + m := by positivity
+  have hr : 0 < β + constantStat heights := by positivity
+  have hk := integral_exp_invgamma_kernel (α * Real.log β - lgA) (α + m) (β + constantStat heights) hs hr
+  have hcongr : ∀ θ ∈ Set.Ioi (0 : ℝ),
+      Real.exp (invGammaLogPdf α β lgA θ) * Real.exp (constantLogProb θ heights)
+        = Real.exp ((α * Real.log β - lgA) - ((α + m) + 1) * Real.log θ - (β + constantStat heights) / θ) := by
+    intro θ _
+    rw [← Real.exp_add]
+    unfold invGammaLogPdf constantLogProb constantIntegral constantStat
+    simp only [trans_log_real, ← hm_def]
+    rw [sum_zipWith_neg_div]
+    congr 1; ring
+  rw [setIntegral_congr_fun measurableSet_Ioi hcongr, hk]
+  unfold constantIntegratedLogProb
+  simp only [trans_log_real, ← hm_def]
+  rw [hAm]
+
+example : ∫ θ in Set.Ioi (0 : ℝ), Real.exp (invGammaLogPdf 2 3 0 θ) * Real.exp (constantLogProb θ [0, 0, 1])
+    = Real.exp (constantIntegratedLogProb 2 3 0 (Real.log (Real.Gamma (2 + (((taxaCount ([0, 0, 1] : List ℝ) - 1 : ℕ) : ℤ) : ℝ))))
+        (constantStat [0, 0, 1]) (taxaCount ([0, 0, 1] : List ℝ) - 1)) :=
+  invgamma_integrated 2 3 (by norm_num) (by norm_num) [0, 0, 1]
+    (by simp [constantStat, sortEvents, insertEv, mkEvents, taxaCount, nodeMask, lineages, cumsum, cumsumFrom,
+          marks, times, diffs, choose2]) 0 _ rfl
+
 /-! ## sufficient statistics -/
 
 /-- **suffstats_reproduce_skygrid** — for every order of the node heights and every tie pattern, the per-section
